@@ -1,21 +1,36 @@
 (* C19 — digest comparison time does not depend on where the digests differ.  Statements only.
    The ten programs are regenerated from the current Go source on every run (Generated/Gen_check_ir.v). *)
-Require Import GC.Base.Bytes GC.CT.IR GC.Generated.Gen_check_ir.
+Require Import GC.Base.Bytes GC.CT.IR GC.CT.Leak GC.CT.CTSound GC.Generated.Gen_check_ir.
 
 (* every scheme's Check passes the taint analysis: the value returned by Key reaches only encoders and
    subtle.ConstantTimeCompare; the stored digest reaches only ConstantTimeCompare; no condition, comparison,
    index, loop bound, other call or return value depends on them; the mismatch sentinel is returned only under
    a condition on ConstantTimeCompare's result *)
-Theorem C19_argon2 : ct_ok check_ir_argon2 = true. Proof. vm_compute. reflexivity. Qed.
-Theorem C19_bcrypt : ct_ok check_ir_bcrypt = true. Proof. vm_compute. reflexivity. Qed.
-Theorem C19_des    : ct_ok check_ir_des = true.    Proof. vm_compute. reflexivity. Qed.
-Theorem C19_desext : ct_ok check_ir_desext = true. Proof. vm_compute. reflexivity. Qed.
-Theorem C19_md5    : ct_ok check_ir_md5 = true.    Proof. vm_compute. reflexivity. Qed.
-Theorem C19_nthash : ct_ok check_ir_nthash = true. Proof. vm_compute. reflexivity. Qed.
-Theorem C19_sha1   : ct_ok check_ir_sha1 = true.   Proof. vm_compute. reflexivity. Qed.
-Theorem C19_sha256 : ct_ok check_ir_sha256 = true. Proof. vm_compute. reflexivity. Qed.
-Theorem C19_sha512 : ct_ok check_ir_sha512 = true. Proof. vm_compute. reflexivity. Qed.
-Theorem C19_sunmd5 : ct_ok check_ir_sunmd5 = true. Proof. vm_compute. reflexivity. Qed.
+Theorem C19_argon2 : ct_ok' check_ir_argon2 = true. Proof. vm_compute. reflexivity. Qed.
+Theorem C19_bcrypt : ct_ok' check_ir_bcrypt = true. Proof. vm_compute. reflexivity. Qed.
+Theorem C19_des    : ct_ok' check_ir_des = true.    Proof. vm_compute. reflexivity. Qed.
+Theorem C19_desext : ct_ok' check_ir_desext = true. Proof. vm_compute. reflexivity. Qed.
+Theorem C19_md5    : ct_ok' check_ir_md5 = true.    Proof. vm_compute. reflexivity. Qed.
+Theorem C19_nthash : ct_ok' check_ir_nthash = true. Proof. vm_compute. reflexivity. Qed.
+Theorem C19_sha1   : ct_ok' check_ir_sha1 = true.   Proof. vm_compute. reflexivity. Qed.
+Theorem C19_sha256 : ct_ok' check_ir_sha256 = true. Proof. vm_compute. reflexivity. Qed.
+Theorem C19_sha512 : ct_ok' check_ir_sha512 = true. Proof. vm_compute. reflexivity. Qed.
+Theorem C19_sunmd5 : ct_ok' check_ir_sunmd5 = true. Proof. vm_compute. reflexivity. Qed.
+
+(* SOUNDNESS of the analysis against the leakage semantics of CT/Leak.v (branches, comparisons of byte strings,
+   index bounds and the arguments of every call that is not known to be constant-time are leaked; known
+   constant-time callees leak lengths only; ConstantTimeCompare's verdict is the declassified output):
+   two runs that differ only in the key bytes returned by Key and in the bytes of the stored digest (equal
+   lengths) and in which ConstantTimeCompare answers alike produce the same leakage trace — timing cannot
+   depend on where the digests differ. *)
+Theorem C19_sound :
+  forall body fuel fsem k1 k2 pend1 pend2 env1 env2 r1 r2 tr1 tr2 e1' e2',
+    ct_ok' body = true -> len_respecting fsem -> length k1 = length k2 ->
+    pend_low_equiv pend1 pend2 -> env_low_equiv [] env1 env2 ->
+    exec fuel fsem k1 pend1 env1 body = Some (e1', r1, tr1) ->
+    exec fuel fsem k2 pend2 env2 body = Some (e2', r2, tr2) ->
+    ctc_verdicts tr1 = ctc_verdicts tr2 -> strip_verdicts tr1 = strip_verdicts tr2.
+Proof. exact ct_sound. Qed.
 
 (* the analysis rejects the classic mistakes (non-vacuity of the check) *)
 Definition bad_equal : list stmt :=
@@ -26,5 +41,5 @@ Definition bad_fastpath : list stmt :=
   [SDefine [[107;101;121]; [101;114;114]] (ECall (EId s_Key) [EId [112]]);
    SIf None (EBinary s_ne (EIndex (EId [107;101;121]) ELit) (EIndex (ESel (EId [115]) s_Sum) ELit))
        [SReturn [ESel (EId [99;114;121;112;116]) s_Mismatch]] []].
-Example C19_rejects : ct_ok bad_equal = false /\ ct_ok bad_fastpath = false.
+Example C19_rejects : ct_ok' bad_equal = false /\ ct_ok' bad_fastpath = false.
 Proof. vm_compute. split; reflexivity. Qed.
